@@ -16,11 +16,14 @@ def Coh (c : Cfg) (F : Key → Ev) : V → Prop
   | .sens id v => F (.ptr id) = plain c (.sens id v) ∧ Coh c F v
   | .bin id bs => F (.ptr id) = plain c (.bin id bs)
   | .leaf id k enc disp => F (leafKey id k enc) = plain c (.leaf id k enc disp)
+  | .obj id tn disp as => F (.ptr id) = plain c (.obj id tn disp as) ∧ CohAttrs c F as
   | _ => True
 def CohList (c : Cfg) (F : Key → Ev) : List V → Prop
   | [] => True | v :: vs => Coh c F v ∧ CohList c F vs
 def CohPairs (c : Cfg) (F : Key → Ev) : List (V × V) → Prop
   | [] => True | (k, v) :: es => Coh c F k ∧ Coh c F v ∧ CohPairs c F es
+def CohAttrs (c : Cfg) (F : Key → Ev) : List (String × V) → Prop
+  | [] => True | (_, v) :: as => Coh c F v ∧ CohAttrs c F as
 end
 
 /-- strings are identified by content, so their entry is forced -/
@@ -317,6 +320,28 @@ theorem toData_step (c : Cfg) (F : Key → Ev) (hF : FStr F) :
           intro env1 hI1
           exact step_strData hF c 1 enc hI1
       · exact step_strData hF c 1 disp hI
+  | _, .obj id tn disp attrs, st, env, hI, hC => by
+      simp only [Coh] at hC
+      simp only [toData, plain]
+      split
+      · rename_i hr
+        split
+        · rename_i r hs
+          exact ⟨env, by rw [ref_ok hI hs, hC.1]; simp [plain, hr], hI, Ext.refl _⟩
+        · apply step_record c _ hI (by rw [hC.1]; simp [plain, hr])
+          have hl : StepL F (env ++ [none])
+              ((strData c 2 "__ptype" (bump st)).1 :: (strData c 1 tn (strData c 2 "__ptype" (bump st)).2).1 ::
+                (attrsData c attrs (strData c 1 tn (strData c 2 "__ptype" (bump st)).2).2).1,
+                (attrsData c attrs (strData c 1 tn (strData c 2 "__ptype" (bump st)).2).2).2)
+              (ptypeEv :: .add (.str tn) :: plainAttrs c attrs) := by
+            apply stepL_cons (step_strData hF c 2 "__ptype" hI.open')
+            intro env1 hI1
+            apply stepL_cons (step_strData hF c 1 tn hI1)
+            intro env2 hI2
+            exact attrsData_step c F hF attrs _ env2 hI2 hC.2
+          obtain ⟨env', h1, h2, h3, h4⟩ := step_hsh hl
+          exact ⟨env', h1, h2, h3, fun _ => h4⟩
+      · exact step_strData hF c 1 disp hI
 
 theorem listData_step (c : Cfg) (F : Key → Ev) (hF : FStr F) :
     ∀ (vs : List V) (st : St) (env : List (Option Ev)), Inv F st env → CohList c F vs →
@@ -363,6 +388,18 @@ theorem skeyData_step (c : Cfg) (F : Key → Ev) (hF : FStr F) :
       intro env1 hI1
       exact stepL_cons (toData_step c F hF 1 v _ env1 hI1 hC.2.1)
         (fun env2 hI2 => skeyData_step c F hF es _ env2 hI2 hC.2.2)
+
+theorem attrsData_step (c : Cfg) (F : Key → Ev) (hF : FStr F) :
+    ∀ (as : List (String × V)) (st : St) (env : List (Option Ev)), Inv F st env → CohAttrs c F as →
+      StepL F env (attrsData c as st) (plainAttrs c as)
+  | [], st, env, hI, _ => by simpa [attrsData, plainAttrs] using stepL_nil hI
+  | (k, v) :: as, st, env, hI, hC => by
+      simp only [CohAttrs] at hC
+      simp only [attrsData, plainAttrs]
+      apply stepL_cons (step_strData hF c 2 k hI)
+      intro env1 hI1
+      exact stepL_cons (toData_step c F hF 1 v _ env1 hI1 hC.1)
+        (fun env2 hI2 => attrsData_step c F hF as _ env2 hI2 hC.2)
 end
 
 end Pcore.Ser
